@@ -296,6 +296,9 @@ func (p *Pool) Put(x interface{}) {
 	vsched.Point()
 	p.items = append(p.items, x)
 	vsched.Record(&p.o, kPool, true, 3)
+	// a point after the hand-back: "free, then keep using the buffer" must be separable from
+	// another thread's Get
+	vsched.Point()
 }
 
 // PoolMissDeviations turns on the "pool returns a new object although one is pooled" deviation.
